@@ -17,7 +17,7 @@ THEOREMS = [
     "C11_kind_tables_scope", "C11_kind_tables_scope_complete",
     "C11_lookup_order", "C11_lookup_first_match", "C11_absent_plain", "C11_case_insensitive", "C11_no_abort",
     "C11_child_kind_error", "C11_child_sound", "C11_project_order", "C11_lookup_item_kind_word",
-    "C11_link_only_documented", "C11_displayed_is_documented",
+    "C11_link_only_documented", "C11_displayed_is_documented", "C11_context_not_inherited",
 ]
 
 COMP_KINDS = ["procedure", "proc", "subroutine", "function", "interface", "absinterface", "block", "type", "file",
@@ -161,9 +161,13 @@ def setup_project(files, **settings):
 
 def run_queries(ab, md, base, qs):
     res = []
-    for ctx, r in qs:
+    ctxs = ab.contexts()
+    for k, (ctx, r) in enumerate(qs):
         path = None if ctx is not None else base / "page" / "sub"
-        res.append(L.convert(md, base, ab, ctx, ref_text(r), path=path))
+        # every fourth conversion runs on the state that the conversion of some entity's documentation left
+        # behind (no reset in between, as for the project summary): its context is its own argument all the same
+        after = ctxs[(7 * k) % len(ctxs)] if ctxs and k % 4 == 1 else None
+        res.append(L.convert(md, base, ab, ctx, ref_text(r), path=path, after=after))
     return res
 
 
@@ -443,8 +447,14 @@ def end_to_end(chk, rng, nproj):
         pj = G.gen(rng, {"p_private": 0.0})
         w, p, ab, md, base = setup_project(G.fill(pj["files"], {}))
         w.__exit__()
-        page_keys = ["@project", "@summary", "@page", "@subpage"]
+        page_keys = ["@project", "@summary", "@author", "@page", "@subpage"]
         marks = e2e_docs(rng, ab, [d for d in pj["docs"] if rng.random() < 0.6] + page_keys, 2)
+        # the texts that are converted without a context carry unqualified references to names that also
+        # live inside procedures and types (arguments, locals, components): only the project-wide lookup applies
+        inner = sorted({e["name"] for e in ab.ents if e["cls"] == "FortranVariable" and re.fullmatch(r"\w+", e["name"] or "")})
+        for key in page_keys:
+            for n in rng.sample(inner, min(3, len(inner))):
+                marks[len(marks)] = (key, (spell(rng, n), None, None, None))
         skip = set()
         for attempt in range(2):        # drop the references that raise (they would abort the run)
             docs = doc_texts(marks, skip)
@@ -468,8 +478,10 @@ def end_to_end(chk, rng, nproj):
         files["pages/index.md"] = "title: Pages\n\n" + docs.get("@page", "none") + "\n"
         files["pages/sub/index.md"] = "title: Sub\n\n" + docs.get("@subpage", "none") + "\n"
         summary = docs.get("@summary", "none").split("\n")[0]
+        author = docs.get("@author", "none").split("\n")[0]
         with F.Work(files) as w2:
-            err, log, records, project = spied_run(w2.root, {"page_dir": "./pages", "summary": summary},
+            err, log, records, project = spied_run(w2.root, {"page_dir": "./pages", "summary": summary, "author": "me",
+                                                             "author_description": author},
                                                    docs.get("@project", "Project.") + "\n")
             stats["runs"] += 1
             chk.count(("e2e", tuple(sorted(files))), sample={"e2e_files": sorted(files), "markers": len(records)})
@@ -481,16 +493,24 @@ def end_to_end(chk, rng, nproj):
             # (1) what the run resolved, judged by Model and Spec on the run's own Project object
             ab2 = L.Abstract(project)
             cases, infos = [], []
+            # the context a text is converted in is the entity it documents; the project file, its summary
+            # and author_description and the static pages have none -- whatever was converted before them
+            owner = locate(ab2, marks, page_keys)
             for kk, rec in sorted(records.items()):
                 if kk not in marks or ab2.unsupported():
                     continue
-                ctx = ab2.ids.get(id(rec["ctx"])) if rec["ctx"] is not None else None
-                if rec["ctx"] is not None and ctx is None:
-                    continue
+                if marks[kk][0] in page_keys:
+                    ctx = None
+                else:
+                    ctx = owner.get(kk)
+                    if ctx is None:
+                        continue
                 tgt = record_target(rec)
                 res = ("plain",) if tgt is None else ("link", ab2.by_url().get(L.norm_url(tgt), []), tgt)
                 cases.append(f"(P0, ({coq_opt(ctx, str)}, {ref_term(marks[kk][1])}), {ires_term(res)})")
-                infos.append({"ctx": ctx, "ref": ref_text(marks[kk][1]), "impl": res, "marker": kk})
+                infos.append({"ctx": ctx, "ref": ref_text(marks[kk][1]), "impl": res, "marker": kk,
+                              "text": marks[kk][0],
+                              "context_during_conversion": getattr(rec["ctx"], "name", None)})
             stats["judged"] += len(cases)
             evaluate(chk, "Definition P0 : proj := " + proj_term(ab2) + ".", cases, infos,
                      "reference resolved during a full FORD run", {"files": files})
@@ -663,8 +683,8 @@ def direct_batch(chk, rng, projects, what):
     evaluate(chk, "\n".join(defs), cases, infos, what, {})
 
 
-def corpus_queries(ab):
-    ctxs = [None] + ab.contexts()
+def corpus_queries(ab, stride=1):
+    ctxs = [None] + ab.contexts()[::stride]
     return [(c, t) for c in ctxs for t in CORPUS_REFS]
 
 
@@ -681,9 +701,9 @@ def run(chk):
                 "iso_c_binding", "iso_c_binding(extmodule)", "mpi:n", "openacc"]
     projects = [(ext_files, {}, lambda ab: [(c, t) for c in [None] + ab.contexts() for t in ext_refs], 20),
                 (CORPUS_FILES, {}, corpus_queries, 40),
-                (CORPUS_FILES, {"incl_src": False}, corpus_queries, 20),
+                (CORPUS_FILES, {"incl_src": False}, (lambda ab: corpus_queries(ab, 3)) if quick else corpus_queries, 20),
                 (CORPUS_FILES, {"display": ["public", "private", "protected"], "proc_internals": True},
-                 corpus_queries, 40)]
+                 (lambda ab: corpus_queries(ab, 2)) if quick else corpus_queries, 40)]
     for i in range(4 if quick else 40):
         pj = G.gen(rng, {"p_private": 0.35 if i % 4 else 0.0})
         settings = {"display": ["public", "private", "protected"]} if i % 3 == 0 else \
